@@ -440,9 +440,10 @@ func (e *Exec) mapLookup(st *State, m *MapV, key Value, elem types.Type) (Value,
 	val := zero
 	found := e.ts.False
 	for i := len(md.Keys) - 1; i >= 0; i-- {
-		eq := e.keyEq(st, md.Keys[i], key)
+		ki := e.substConc(st, md.Keys[i])
+		eq := e.keyEq(st, ki, key)
 		if md.Present != nil {
-			eq = e.ts.And(md.Present[i], eq)
+			eq = e.ts.And(e.substConc(st, md.Present[i]).(*term.Term), eq)
 		}
 		if eq.IsFalse() {
 			continue
@@ -457,10 +458,10 @@ func (e *Exec) mapLookup(st *State, m *MapV, key Value, elem types.Type) (Value,
 			if t := e.someSymbolicPart(key); t != nil {
 				panic(&concretizeReq{t})
 			}
-			if t := e.someSymbolicPart(md.Keys[i]); t != nil {
+			if t := e.someSymbolicPart(ki); t != nil {
 				panic(&concretizeReq{t})
 			}
-			panic(&concretizeReq{md.Present[i]})
+			panic(&concretizeReq{eq})
 		}
 		val = mv
 		found = e.ts.Or(eq, found)
@@ -511,13 +512,19 @@ func (e *Exec) someSymbolicPart(v Value) *term.Term {
 
 // substConc replaces scalar terms that were concretised on this path by their constants.
 func (e *Exec) substConc(st *State, v Value) Value {
-	if len(st.conc) == 0 {
+	if len(st.conc) == 0 && len(st.pinned) == 0 {
 		return v
 	}
 	switch x := v.(type) {
 	case *term.Term:
 		if !x.IsConst() {
 			if c, ok := st.conc[x.ID]; ok {
+				return e.ts.Const(x.W, c)
+			}
+			if c, ok := e.pinnedConst(st, x); ok {
+				if x.W == 0 {
+					return e.ts.Bool(c != 0)
+				}
 				return e.ts.Const(x.W, c)
 			}
 		}
@@ -595,9 +602,10 @@ func (e *Exec) mapUpdate(st *State, m *MapV, key, val Value) {
 	eqs := make([]*term.Term, len(md.Keys))
 	anyEq := e.ts.False
 	for i, k := range md.Keys {
+		k = e.substConc(st, k)
 		eq := e.keyEq(st, k, key)
 		if md.Present != nil {
-			eq = e.ts.And(md.Present[i], eq)
+			eq = e.ts.And(e.substConc(st, md.Present[i]).(*term.Term), eq)
 		}
 		eqs[i] = eq
 		if eq.IsTrue() {
@@ -630,7 +638,7 @@ func (e *Exec) mapUpdate(st *State, m *MapV, key, val Value) {
 			if t := e.someSymbolicPart(key); t != nil {
 				panic(&concretizeReq{t})
 			}
-			if t := e.someSymbolicPart(md.Keys[i]); t != nil {
+			if t := e.someSymbolicPart(e.substConc(st, md.Keys[i])); t != nil {
 				panic(&concretizeReq{t})
 			}
 			panic(&concretizeReq{eqs[i]})
@@ -661,7 +669,7 @@ func (e *Exec) mapDelete(st *State, m *MapV, key Value) {
 		if md.Present != nil {
 			p = md.Present[i]
 		}
-		eq := e.keyEq(st, k, key)
+		eq := e.keyEq(st, e.substConc(st, k), key)
 		np[i] = e.ts.And(p, e.ts.Not(eq))
 		if np[i] != p {
 			changed = true
